@@ -113,17 +113,9 @@ def handle (req : Json) : Except String Json := do
     let lc ← parseCols (← field req "l")
     let pc ← opt parseCols (fieldD req "p" Json.null)
     let span ← opt nat (fieldD req "span" Json.null)
-    let spec : Except Err (List ((Key × Key) × List Rat)) :=
-      if r.ints.isEmpty then .error .coba else
-      match pc with
-      | none => groupedYsS r lc x span
-      | some pc =>
-        match whereFinS r (if x = .index then some .min else none) (some (lc, pc)) with
-        | .error e => .error e
-        | .ok fin => if fin.lrns.isEmpty then .error .coba else groupedYsS fin lc x span
     pure (obj [("model", exc rawToJson (rawLearners true r x lc pc span)),
                ("legacy", exc rawToJson (rawLearners false r x lc pc span)),
-               ("spec", exc rawToJson spec),
+               ("spec", exc rawToJson (rawLearnersS r x lc pc span)),
                ("hyp", Json.bool (wf r))])
   | "remove" =>
     let ts ← (← arr (← field req "ts")).mapM (fun j => do
